@@ -36,6 +36,11 @@ def classify(msg):
         return ["nodeFailed", m.group(1), classify(m.group(2))]
     m = re.match(r"^Deserializing ([^:]*): (.*)$", msg, re.S)
     if m:
+        # a class file that parses as YAML but cannot be decoded (constant written twice, tagged value) fails with
+        # the decoder's own error behind this prefix; everything else is a file-level failure
+        inner = classify(m.group(2))
+        if inner[0] in ("constKey", "yamlTagged"):
+            return inner
         return ["io", m.group(2)]
     if msg.startswith("Detected reference loop"):
         return ["loop"]
